@@ -31,7 +31,26 @@ var (
 	cond     = sync.NewCond(&mu)
 	ids      = map[interface{}]uint64{}
 	spins    = map[string]*int32{} // label -> flag of a spin gate (goroutines busy-wait: released within nanoseconds of each other)
+	logging  int32 = 1             // 0: Point does not log (race-detector runs: the log's mutex would order the goroutines it is meant to observe)
+	ngates   int32                 // number of labels currently held (Hold/HoldSpin); with logging off and no gate Point touches nothing shared
 )
+
+// SetLogging switches the event log on or off. With the log off and no gate held, Point and ID do not take any lock, so that they
+// add no happens-before edges between the goroutines of the code under test.
+func SetLogging(on bool) {
+	v := int32(0)
+	if on {
+		v = 1
+	}
+	atomic.StoreInt32(&logging, v)
+}
+
+// recount publishes the number of held labels (caller holds mu)
+func recount() {
+	atomic.StoreInt32(&ngates, int32(len(gates)+len(spins)+len(detached)))
+}
+
+func passive() bool { return atomic.LoadInt32(&logging) == 0 && atomic.LoadInt32(&ngates) == 0 }
 
 func gid() uint64 {
 	var buf [64]byte
@@ -46,7 +65,7 @@ func gid() uint64 {
 
 // ID gives a small stable number to an object (connection identity in events).
 func ID(v interface{}) uint64 {
-	if v == nil {
+	if v == nil || passive() {
 		return 0
 	}
 	mu.Lock()
@@ -61,6 +80,9 @@ func ID(v interface{}) uint64 {
 
 // Point logs the event and parks the caller while the label's gate is held.
 func Point(label string, args ...uint64) {
+	if passive() {
+		return
+	}
 	g0 := gid()
 	mu.Lock()
 	seq++
@@ -99,6 +121,7 @@ func Hold(label string) {
 		gates[label] = make(chan struct{})
 		ones[label] = make(chan struct{}, 1024)
 	}
+	recount()
 	mu.Unlock()
 }
 
@@ -107,6 +130,7 @@ func HoldSpin(label string) {
 	mu.Lock()
 	spins[label] = new(int32)
 	held[label] = 0
+	recount()
 	mu.Unlock()
 }
 
@@ -118,6 +142,7 @@ func ReleaseSpin(label string) {
 		delete(spins, label)
 		held[label] = 0
 	}
+	recount()
 	mu.Unlock()
 }
 
@@ -129,6 +154,7 @@ func Detach(label string) {
 		delete(gates, label)
 		held[label] = 0
 	}
+	recount()
 	mu.Unlock()
 }
 
@@ -139,6 +165,7 @@ func ReleaseDetached(label string) {
 		close(g)
 	}
 	delete(detached, label)
+	recount()
 	mu.Unlock()
 }
 
@@ -160,6 +187,7 @@ func Release(label string) {
 		delete(gates, label)
 		held[label] = 0
 	}
+	recount()
 	mu.Unlock()
 }
 
@@ -232,5 +260,6 @@ func Reset() {
 	}
 	held = map[string]int{}
 	events = nil
+	recount()
 	mu.Unlock()
 }
